@@ -289,6 +289,69 @@ def c08_own_imports(V, tier):
     return len(ctx), meta
 
 
+def c05_linked_conftests(V, tier):
+    """C05 where a conftest.py is a SYMBOLIC LINK to a differently named file (one shared conftest linked into test directories).
+    Pure agreement, no reference answer on what such a link should provide: for every requested name go-to-definition, the per-file
+    view (completion, inlay hints) must denote ONE definition or both denote none."""
+    C.build_harness()
+    base = os.path.join(C.BUILD, "ws", "c05link-%d" % os.getpid())
+    shutil.rmtree(base, ignore_errors=True)
+    FX = "import pytest\n\n\n@pytest.fixture\ndef %s():\n    return 1\n"
+    hcases, ctx = [], {}
+    n = 0
+    for link_at in ("tests/unit", "tests"):                       # the test's own directory / its parent
+        for target in ("shared/base_conftest.py", "tests/_shared_fixtures.py", "shared/conftest.py"):
+            for also_real in (False, True):                      # the linked file's name is ALSO defined by a real conftest above
+                for opened in (False, True):                     # the test file re-analysed as a didOpen would
+                    root = os.path.join(base, "k%d" % n, "R")
+                    os.makedirs(os.path.join(root, "tests", "unit"), exist_ok=True)
+                    os.makedirs(os.path.dirname(os.path.join(root, target)), exist_ok=True)
+                    with open(os.path.join(root, target), "w") as fh:
+                        fh.write(FX % "shared_db")
+                    real = os.path.join(root, "conftest.py")
+                    with open(real, "w") as fh:
+                        fh.write(FX % "plain" + ("\n\n@pytest.fixture\ndef shared_db():\n    return 2\n" if also_real else ""))
+                    link = os.path.join(root, link_at, "conftest.py")
+                    os.symlink(os.path.relpath(os.path.join(root, target), os.path.dirname(link)), link)
+                    tpath = os.path.join(root, "tests", "unit", "test_orders.py")
+                    ttext = "def test_orders(plain, shared_db, missing_fx):\n    pass\n"
+                    with open(tpath, "w") as fh:
+                        fh.write(ttext)
+                    ops = [{"op": "scan", "root": root}]
+                    if opened:
+                        ops.append({"op": "analyze", "path": tpath, "text": ttext})
+                    k0 = len(ops)
+                    for nm in ("plain", "shared_db", "missing_fx"):
+                        ops.append({"op": "goto", "path": tpath, "line": 0, "col": ttext.index(nm) + 1})
+                        ops.append({"op": "resolve_for_file", "path": tpath, "name": nm})
+                    ops.append({"op": "available", "path": tpath})
+                    ctx[n] = ({"link_at": link_at + "/conftest.py", "link_target": target, "name_also_in_root_conftest": also_real,
+                               "test_file_opened": opened}, k0, root)
+                    hcases.append({"id": n, "ops": ops})
+                    n += 1
+    for res in C.run_harness(hcases, threads=8):
+        lay, k0, root = ctx[res["id"]]
+        r = res["res"]
+        avail = r[-1] if isinstance(r[-1], list) else None
+        for j, nm in enumerate(("plain", "shared_db", "missing_fx")):
+            V.count()
+            V.nontriv(("linked_conftest", json.dumps(lay, sort_keys=True), nm))
+            g, rf = r[k0 + 2 * j], r[k0 + 2 * j + 1]
+            ent = [d for d in (avail or []) if d["name"] == nm]
+            key = lambda d: None if not isinstance(d, dict) or "name" not in d else (os.path.relpath(d["file"], root), d["line"])
+            # resolve_fixture_for_file is not compared here: its fallback to ANY definition of an invisible name is the recorded
+            # finding rff_fallback_any, judged on the layout table
+            answers = {"go-to-definition": key(g),
+                       "per-file view (completion / inlay hints)": key(ent[0]) if ent else None}
+            ex = {"layout": lay, "name": nm, "answers": {k: (list(v) if v else None) for k, v in answers.items()}}
+            if avail is None or len(ent) > 1 or len(set(answers.values())) > 1:
+                V.violation(ex, "below a conftest.py that is a symbolic link the features do not agree on the definition a name denotes")
+            if nm == "plain" and answers["go-to-definition"] != ("conftest.py", 5):
+                raise C.ToolError("linked-conftest workspace: the control name `plain` does not resolve to the root conftest: %r" % (ex,))
+    shutil.rmtree(base, ignore_errors=True)
+    return n
+
+
 def c04_own_imports(V, tier):
     """C04 on the import universe: workspaces whose using file is a TEST MODULE that imports fixtures itself, plus a sibling test
     module in the same directory that requests the same names WITHOUT importing them.  On disk, scanned.  Pure agreement, no
